@@ -65,6 +65,9 @@ def variations(g, table, chans, SR, M):
         # duration of the first segment, on all channels alike
         if r.random() < 0.3:
             n = r.sample(range(2, 30), M)      # the same new duration everywhere: valid only if the first segments were alike
+            if r.random() < 0.5:
+                # a value between one and a half and two sample periods: forged as two points, a valid element (seeded C17-m18)
+                n[r.randrange(M)] = r.choice([1.75, 1.6, 1.875])
             for ch in chans:
                 vs.append({"chan": ch, "name": table[ch][0][0], "arg": enc("duration"), "vals": [enc(x / SR) for x in n]})
         else:
@@ -101,6 +104,24 @@ def case(g, tier, ci):
         # judged by what is forged, descriptions are not compared
         first = r.choice([1, 2])
         chans = r.sample([first, str(first)], 2) + ([3] if r.random() < 0.4 else [])
+    if ci % 11 == 6:
+        # a 'duration' sweep with values between one and a half and two sample periods (forged as two points: the element
+        # stays valid) next to ordinary ones (seeded C17-m18: refused by a guard stricter than the forger)
+        SR = r.choice([100, 10, 1e3])
+        ops = [{"op": "bp.new", "id": "bs"},
+               {"op": "bp.insert", "id": "bs", "pos": -1, "fn": "ramp", "args": [enc(0), enc(1)], "dur": enc(4 / SR), "name": enc("a")},
+               {"op": "bp.insert", "id": "bs", "pos": -1, "fn": "ramp", "args": [enc(1), enc(0.5)], "dur": enc(r.randint(2, 9) / SR), "name": enc("b")},
+               {"op": "bp.setSR", "id": "bs", "SR": enc(SR)}, {"op": "el.new", "id": "e"}, {"op": "el.addBP", "id": "e", "ch": 1, "bp": "bs"}]
+        vals = [r.choice([1.75, 1.6, 1.875]), r.randint(2, 6), r.choice([1.75, 1.5625])]
+        r.shuffle(vals)
+        vs = [{"chan": 1, "name": "a", "arg": enc("duration"), "vals": [enc(x / SR) for x in vals]}]
+        ops += [{"op": "el.desc", "id": "e", "_tag": "in0"},
+                {"op": "tl.vary", "base": "e", "to": "s", "lens": [1, 1, 1, 1], "vars": vs, "_errclass": True, "_tag": "call"},
+                {"op": "sq.desc", "id": "s", "_tag": "out"}, {"op": "sq.check", "id": "s"},
+                {"op": "sq.forge", "id": "s", "delays": True, "filters": True, "time": False},
+                {"op": "el.desc", "id": "e", "_tag": "in1"}]
+        ops[0]["_vary"] = {"vars": vs, "M": 3, "SR": SR}
+        return ops
     N = r.randint(8, 30)
     kind = r.choice(["vary", "vary", "lin", "rep", "rep"])
     ops, table = base_element(g, "e", SR, chans, N)
